@@ -16,6 +16,19 @@ Require Import V.Proofs.C02Proofs.
 Require Import V.Proofs.C02Quiescent.
 Require Import V.Proofs.AppenderMsgs.
 Require Import V.Proofs.C02OracleProofs.
+Require Import V.Proofs.C02Words.
+Require Import V.Proofs.C02Trace.
+Require Import V.Proofs.C02OracleFull.
+Require Import V.Proofs.C02OracleRun.
+Require Import V.Model.Appender.
+Require Import V.Model.Publication.
+Require Import V.Proofs.C02SeqTerm.
+Require Import V.Proofs.C02Solo.
+Require Import V.Proofs.C02Collapse.
+Require Import V.Proofs.C02CollapseRun.
+Require Import V.Oracle.C02SoloOracle.
+Require Import V.Proofs.C02SoloOracleProofs.
+Require Import V.Proofs.C02Example.
 Open Scope Z_scope.
 
 (* The invariant holds in every configuration reachable by ANY number of publisher (and environment) threads
@@ -140,15 +153,64 @@ Theorem C02_quiescent_rotation : forall c, wf_cfg c -> forall s gh P,
 Proof. exact quiescent_rotation. Qed.
 Print Assumptions C02_quiescent_rotation.
 
-(* the oracle applied to the model's own results: its results part (everybody Done, every answer allowed, per-publisher
-   positions increasing) is true on every quiescent configuration the model can reach, for any number of threads.
-   PARTIAL: the log part of holds_C02 (walk of the rendered dump, reassembly, count/tails) is not proved true on every model
-   run - it needs the render/decode round trip of the word dump; it is evaluated on the model for every case instead. *)
+(* THE ORACLE ON THE MODEL.  The whole decidable predicate holds_C02 that judges the implementation's observations - results
+   part AND log part: the walk over the rendered words of every partition, coverage of every dumped word by a walked frame,
+   padding only at a term end, reassembled data messages = accepted offers of that generation (same end positions, same bytes,
+   nothing else), all positions distinct, count / tails (each filled term rotated exactly once) - is `true` on the observation
+   (trace, per-thread results, dump) of EVERY quiescent configuration the thread model can reach:
+   any number of threads, any message lists of bytes, every interleaving of admissible steps.
+   reacht = reachm (publishers started with the lists `orig`) carrying the trace of the events of the steps taken
+   (the oracle reads the trace to know which partitions the driver zeroed after the last rotation into them).
+   The proof goes through the render / decode round trip between the slot-level state and the word dump
+   (Proofs/C02Words, C02Render, C02Frames, C02GenFrames), C02_accepted_message and the ghost claim lists. *)
+Theorem C02_oracle : forall c, wf_cfg c -> forall orig s th gh tr n stop g offers,
+  (forall t m, In m (orig t) -> Forall byte m) ->
+  reacht c orig s th gh tr -> all_done th -> length offers = n ->
+  (forall t l, th t = TPub l -> (t < n)%nat /\ nth t offers [] = orig t) ->
+  holds_C02 c offers
+    (map ev_tuple tr, map (fun t => thread_obs stop g t (th t)) (seq 0 n), dump c s, @nil (Z * Z * Z * Z * list Z)) = true.
+Proof. intros c W orig s th gh tr n stop g offers OB R D Hlen Hpub.
+  exact (oracle_full c W orig OB s th gh tr R D n stop g offers Hlen Hpub). Qed.
+Print Assumptions C02_oracle.
+
+(* the same for the EXECUTABLE run of the model that the correspondence check evaluates for every case (AppenderThreads.run_case =
+   Sched.run: the schedule, then every thread drained in thread-id order): when every step it takes is admissible
+   (C02OracleRun.adm_sched_t / adm_drain: sys_adm at every granted step) and all threads end done, holds_C02 is true on run_case's
+   own observation *)
+Theorem C02_oracle_run : forall c, wf_cfg c -> forall limit ths sched stops orig offers,
+  (forall t m, In m (orig t) -> Forall byte m) ->
+  (forall t, match threads_of ths t with TPub l => exists b, l = p_start (orig t) b [] | _ => True end) ->
+  length offers = length ths ->
+  (forall t l, threads_of ths t = TPub l -> nth t offers [] = orig t) ->
+  let r0 := (init_shared c limit, threads_of ths, (fun _ : nat => O), @nil event) in
+  adm_sched_t c (stop_of stops) sched r0 ->
+  adm_drain c (stop_of stops) (Z.to_nat 20000) (seq 0 (length ths)) (run_sched (tstep c) (stop_of stops) sched r0) ->
+  (let '(s, th, g, tr) := run (tstep c) (length ths) (Z.to_nat 20000) (stop_of stops) sched (init_shared c limit, threads_of ths) in all_done th) ->
+  holds_C02 c offers (run_case c limit ths sched stops) = true.
+Proof. exact oracle_run. Qed.
+Print Assumptions C02_oracle_run.
+
+(* every reacht configuration is a reach configuration: all theorems above apply to it *)
+Theorem C02_reacht_reach : forall c orig s th gh tr, reacht c orig s th gh tr -> reach c s th gh.
+Proof. intros c orig s th gh tr R. exact (reachm_reach c orig s th gh (reacht_reachm c orig s th gh tr R)). Qed.
+Print Assumptions C02_reacht_reach.
+
+(* the former partial statement (results part only, for `reach`): kept under its name; for reacht it is a consequence of C02_oracle *)
 Theorem C02_oracle_results_partial : forall c, wf_cfg c -> forall s th gh n stop g offers,
   reach c s th gh -> all_done th -> length offers = n ->
   holds_results offers (map (fun t => thread_obs stop g t (th t)) (seq 0 n)) = true.
 Proof. exact oracle_results_model. Qed.
 Print Assumptions C02_oracle_results_partial.
+
+Corollary C02_oracle_results : forall c, wf_cfg c -> forall orig s th gh tr n stop g offers,
+  (forall t m, In m (orig t) -> Forall byte m) ->
+  reacht c orig s th gh tr -> all_done th -> length offers = n ->
+  (forall t l, th t = TPub l -> (t < n)%nat /\ nth t offers [] = orig t) ->
+  holds_results offers (map (fun t => thread_obs stop g t (th t)) (seq 0 n)) = true.
+Proof. intros c W orig s th gh tr n stop g offers OB R D Hlen Hpub.
+  pose proof (C02_oracle c W orig s th gh tr n stop g offers OB R D Hlen Hpub) as H. unfold holds_C02 in H. cbv beta iota zeta in H.
+  do 12 (apply andb_prop in H; destruct H as (H & _)). exact H. Qed.
+Print Assumptions C02_oracle_results.
 
 (* the known class is inhabited: publisher 0 parked between the tail read and its get_and_add while publisher 1
    fills three terms panics and the property's predicate fails on that run *)
@@ -183,3 +245,81 @@ Proof. intros c th.
   pose proof (reach_step c _ th ghost0 0%nat _ _ _ R0 I eq_refl) as R1.
   pose proof (reach_step c _ _ _ 1%nat _ _ _ R1 I eq_refl) as R2.
   eexists. eexists. eexists. split; [exact R2|]. eexists. split; reflexivity. Qed.
+
+(* the hypotheses of C02_oracle are satisfiable by a non-trivial run: two publishers, interleaved, both messages accepted,
+   everybody done (Proofs/C02Example.v: an executable run whose steps are checked admissible) - and on it the oracle is true *)
+Example C02_example_oracle : exists s th gh tr,
+  reacht ex_cfg ex_orig s th gh tr /\ all_done th /\
+  (exists l0 l1, th 0%nat = TPub l0 /\ th 1%nat = TPub l1 /\ p_res l0 = [Ok 1344] /\ p_res l1 = [Ok 1248]) /\
+  holds_C02 ex_cfg ex_offers
+    (map ev_tuple tr, map (fun t => thread_obs (fun _ => None) (fun _ => O) t (th t)) (seq 0 2), dump ex_cfg s, @nil (Z * Z * Z * Z * list Z)) = true.
+Proof. destruct ex_reach as (s & th & gh & tr & R & D & Hpub & Hres). exists s, th, gh, tr.
+  repeat (split; [assumption|]).
+  apply (C02_oracle ex_cfg ex_wf ex_orig s th gh tr 2%nat _ _ ex_offers ex_bytes R D eq_refl Hpub). Qed.
+
+(* ---------------------------------------------------------------------------------------------------------------------
+   COLLAPSE: one publisher machine running alone IS the sequential Publication model of C01 / C04.
+
+   sim c s lg  (Proofs/C02Collapse.v): the sequential log `lg` (Model/LogBase.v: structured terms) and the shared state `s` of the
+   thread model carry the same geometry, count, raw tails, limit, is-connected flag, and every partition has the same dump
+   (render_term = render_mem), with nothing rendered that an append at the tail would cut.
+   att c t s l s' l': thread t takes admissible steps, nobody else moves, until its current attempt records a result.
+   ssteps: any number of admissible steps of thread t alone.  rv0: the reserved-value supplier returning 0 (offer's default).
+   Geometry: wf_cfg and MTU <= 2^28 (the i32 arithmetic of the length computations of term_appender.rs is then exact in
+   both build modes, so the statement holds for Debug and Release alike). *)
+
+(* one attempt of the machine = one call of Publication.pub_offer on a corresponding log: same result, corresponding logs *)
+Theorem C02_collapse_attempt : forall c, wf_cfg c -> c_mtu c <= 268435456 -> forall m t s lg cl l s' l',
+  SI c s -> sim c s lg -> p_pc l = PReadLimit -> mlen l < two31 -> att c t s l s' l' ->
+  exists lg' r, pub_offer m rv0 (mkPub lg false cl) (cur_msg l) = (mkPub lg' false cl, r) /\ l' = finish r l /\ sim c s' lg' /\ SI c s'.
+Proof. exact collapse_attempt. Qed.
+Print Assumptions C02_collapse_attempt.
+
+(* the whole thread body, for every message list and every budget: every complete run of the machine alone from the log the
+   driver hands over gives exactly the results of the sequential model folded over the list with the same retry loop, and a
+   corresponding log (hence the same dump: count, raw tails, every non-zero word of the three partitions) *)
+Theorem C02_collapse : forall c, wf_cfg c -> c_mtu c <= 268435456 -> forall m t msgs budget limit s' l',
+  (forall msg, In msg msgs -> FragArith.zlen msg < two31) ->
+  ssteps c t (init_shared c limit) (p_start msgs budget []) s' l' -> p_pc l' = PDone ->
+  exists lg', seq_thread m (init_log c limit) None msgs budget [] = (lg', p_res l') /\ sim c s' lg' /\
+    log_dump lg' = (sh_count s', [sh_tail s' 0; sh_tail s' 1; sh_tail s' 2],
+                    [render_mem c (sh_mem s') 0; render_mem c (sh_mem s') 1; render_mem c (sh_mem s') 2]).
+Proof. intros c W Wm m t msgs budget limit s' l' Hm H Hd.
+  destruct (collapse_solo c W t Wm m msgs budget limit s' l' Hm H Hd) as (lg' & E & M).
+  exists lg'. split; [assumption|]. split; [assumption|]. apply sim_dump. assumption. Qed.
+Print Assumptions C02_collapse.
+
+(* the same through the scheduler: in a system whose only publisher is thread t, EVERY schedule and crash points whose steps
+   are admissible is a run of that machine alone; if it ends with the thread done, results and log are the sequential ones *)
+Theorem C02_collapse_sched : forall c, wf_cfg c -> c_mtu c <= 268435456 -> forall m t msgs budget limit stop sched th,
+  (forall msg, In msg msgs -> FragArith.zlen msg < two31) ->
+  only_pub t th (p_start msgs budget []) ->
+  adm_sched c stop sched (init_shared c limit, th, (fun _ => O), []) ->
+  let '(s', th', g', tr') := run_sched (tstep c) stop sched (init_shared c limit, th, (fun _ => O), []) in
+  forall l', th' t = TPub l' -> p_pc l' = PDone ->
+  exists lg', seq_thread m (init_log c limit) None msgs budget [] = (lg', p_res l') /\ sim c s' lg'.
+Proof. intros c W Wm m t msgs budget limit stop sched th Hm Ho Ha.
+  pose proof (run_sched_ssteps c t stop sched _ th (fun _ => O) [] _ Ho Ha) as H.
+  destruct (run_sched (tstep c) stop sched (init_shared c limit, th, fun _ : nat => 0%nat, [])) as [[[s' th'] g'] tr'].
+  destruct H as (l1 & (Ho1 & _) & Hss). intros l' Hl' Hd. rewrite Ho1 in Hl'. inversion Hl'; subst l1.
+  exact (collapse_solo c W t Wm m msgs budget limit s' l' Hm Hss Hd). Qed.
+Print Assumptions C02_collapse_sched.
+
+(* satisfiable: one publisher alone offers three messages (the second is fragmented), all accepted; the sequential model
+   returns the same three positions *)
+Example C02_example_collapse : exists s' l' lg',
+  ssteps ex_solo_cfg 0 (init_shared ex_solo_cfg 4096) (p_start ex_solo_msgs 5 []) s' l' /\ p_pc l' = PDone /\
+  seq_thread Debug (init_log ex_solo_cfg 4096) None ex_solo_msgs 5 [] = (lg', [Ok 1184; Ok 1376; Ok 1408]) /\ sim ex_solo_cfg s' lg'.
+Proof. destruct ex_solo as (s' & l' & H & Hd & Hr).
+  destruct (C02_collapse ex_solo_cfg ex_solo_wf ltac:(vm_compute; discriminate) Debug 0%nat ex_solo_msgs 5%nat 4096 s' l') as (lg' & E & M & _); try assumption.
+  { intros msg Hin. unfold ex_solo_msgs in Hin. repeat (destruct Hin as [<- | Hin]; [vm_compute; reflexivity|]). destruct Hin. }
+  exists s', l', lg'. rewrite Hr in E. auto. Qed.
+
+(* the collapse check evaluated on single-publisher cases (Oracle/C02SoloOracle.v: the implementation's results and dump equal
+   those of the SEQUENTIAL model folded over the message list) is true on every complete solo run of the thread model *)
+Theorem C02_solo_oracle : forall c, wf_cfg c -> c_mtu c <= 268435456 -> forall m t msgs budget limit s' l' trt,
+  (forall msg, In msg msgs -> FragArith.zlen msg < two31) ->
+  ssteps c t (init_shared c limit) (p_start msgs budget []) s' l' -> p_pc l' = PDone ->
+  solo_ok m c msgs budget limit (trt, [(Done, p_res l')], dump c s', @nil (Z * Z * Z * Z * list Z)) = true.
+Proof. exact solo_oracle_model. Qed.
+Print Assumptions C02_solo_oracle.
